@@ -57,7 +57,7 @@ class C05(Prop):
         return [("equiv", 3), ("benign-faults", 2), ("history", 2)]
 
     def expected_counters(self, tier):
-        return ["probe.walk-checked", "probe.nonempty-subtree", "probe.end-of-mib", "probe.v1-nosuchname-end", "probe.bulk-multiple-requests", "probe.bulk-cap-below-maxrep", "fault.duplicate", "fault.stale", "fault.reply-drop", "probe.suffix-timeout", "probe.walk-after-abandoned-walk"]
+        return ["probe.walk-checked", "probe.nonempty-subtree", "probe.end-of-mib", "probe.v1-nosuchname-end", "probe.bulk-multiple-requests", "probe.bulk-cap-below-maxrep", "fault.duplicate", "fault.stale", "fault.reply-drop", "probe.suffix-timeout", "probe.walk-after-abandoned-walk", "probe.walk-retried-after-timeout"]
 
     def variants(self, rng, family):
         vs = []
@@ -102,6 +102,8 @@ class C05(Prop):
                 op["max_rep"] = max_rep
             sessions = [sess]
             ops = [op]
+            if family == "benign-faults" and rng.random() < 0.5:
+                op["retry"] = 6  # the application keeps iterating after a timeout
             if family == "history":
                 # earlier walks in the same process - abandoned after a few rows, on this or on another
                 # session, from this or another base - must not leak into the walk under test
@@ -186,6 +188,8 @@ class C05(Prop):
                 if sess["version"] == "v1":
                     run.sim.count("probe.v1-nosuchname-end")
             ok_full = end == "stop" and _same(got, exp)
+            if res["ok"].get("retried_at"):
+                run.sim.count("probe.walk-retried-after-timeout")
             if ok_full:
                 continue
             if lost and isinstance(end, dict) and end["exc"] == "TimeoutError" and _same(got, exp[: len(got)]):
